@@ -194,11 +194,12 @@ pub struct KeySession<'a, C: KeyColl> {
     opcount: u64,
     pub version: i32,
     pub last_unwound: bool,
+    pub last_panicked: bool,
 }
 
 impl<'a, C: KeyColl> KeySession<'a, C> {
     pub fn new(tr: &'a mut Trace, keys: i32, cap: usize, obs_every: u64) -> Self {
-        let mut s = KeySession { c: None, tr, mine: vec![], now: 0, keys, cap, obs_every, opcount: 0, version: 0, last_unwound: false };
+        let mut s = KeySession { c: None, tr, mine: vec![], now: 0, keys, cap, obs_every, opcount: 0, version: 0, last_unwound: false, last_panicked: false };
         s.reset(cap);
         s
     }
@@ -221,20 +222,29 @@ impl<'a, C: KeyColl> KeySession<'a, C> {
     }
     /// `get_value` of every key of the universe at the current time (lists have no snapshot)
     fn obs_json(&mut self) -> String {
+        let now = self.now;
+        let keys = self.keys;
         let c = self.c.as_mut().unwrap();
-        let mut o = String::from("\"obs\":[");
-        let mut first = true;
-        for k in 0..=self.keys + 1 {
-            if let Some(v) = c.get_value(self.now, inst::probe(k, inst::NOEXP)) {
-                if !first {
-                    o.push(',');
+        self.tr.pre("\"op\":\"obs-sweep\",\"out\":\"aborted\"");
+        let r = observe(0, || {
+            let mut o = String::from("\"obs\":[");
+            let mut first = true;
+            for k in 0..=keys + 1 {
+                if let Some(v) = c.get_value(now, inst::probe(k, inst::NOEXP)) {
+                    if !first {
+                        o.push(',');
+                    }
+                    first = false;
+                    let _ = write!(o, "[{},{}]", k, v);
                 }
-                first = false;
-                let _ = write!(o, "[{},{}]", k, v);
             }
+            o.push(']');
+            o
+        });
+        match r.out {
+            Outcome::Ok(o) => o,
+            _ => "\"obspanic\":1".to_string(),
         }
-        o.push(']');
-        o
     }
     fn state_fields(&mut self, force_obs: bool) -> String {
         if C::HAS_SNAP {
@@ -248,45 +258,69 @@ impl<'a, C: KeyColl> KeySession<'a, C> {
     /// `load`: a fan-out segment starts from the state reached by an (unlogged) replay of a path
     pub fn load(&mut self, path: &[KOp], cap: usize) {
         self.cap = cap;
-        let mut c = C::make(cap);
         self.mine.clear();
         self.now = 0;
-        for op in path {
-            match op {
-                KOp::Ins { k, e, v, t } => {
-                    c.insert(inst::probe(*k, *e), *v, *t);
-                    self.mine.push((*k, *e));
-                    self.now = *t;
+        // the replay is not logged call by call, but it is still the code under test: a panic inside
+        // it must not take the harness down (journal mode records it as one pseudo call)
+        self.tr.pre("\"op\":\"load-replay\",\"out\":\"aborted\"");
+        let mut mine: Vec<(i32, i32)> = vec![];
+        let mut now = 0;
+        let o = observe(0, || {
+            let mut c = C::make(cap);
+            for op in path {
+                match op {
+                    KOp::Ins { k, e, v, t } => {
+                        c.insert(inst::probe(*k, *e), *v, *t);
+                        mine.push((*k, *e));
+                        now = *t;
+                    }
+                    KOp::Lt { t, p } => {
+                        c.first_less(*t, DEFAULT, inst::probe(*p, inst::NOEXP));
+                        now = *t;
+                    }
+                    KOp::Le { t, p } => {
+                        c.first_less_or_equal(*t, DEFAULT, inst::probe(*p, inst::NOEXP));
+                        now = *t;
+                    }
+                    KOp::By { t, th } => {
+                        c.first_less_or_equal_by(*t, DEFAULT, inst::by_theta(*th));
+                        now = *t;
+                    }
+                    KOp::Get { t, k } => {
+                        c.get_value(*t, inst::probe(*k, inst::NOEXP));
+                        now = *t;
+                    }
+                    KOp::Empty => {
+                        c.is_empty();
+                    }
+                    KOp::Clear => {
+                        c.clear();
+                        mine.clear();
+                        now = 0;
+                    }
+                    KOp::Export { .. } => panic!("export inside a path"),
                 }
-                KOp::Lt { t, p } => {
-                    c.first_less(*t, DEFAULT, inst::probe(*p, inst::NOEXP));
-                    self.now = *t;
+            }
+            c
+        });
+        match o.out {
+            Outcome::Ok(c) => {
+                self.c = Some(c);
+                self.mine = mine;
+                self.now = now;
+            }
+            _ => {
+                // replay the path again, this time logged, so that the failing call becomes an event
+                self.reset(cap);
+                for op in path {
+                    if !self.apply(op, 0) || self.last_panicked {
+                        break;
+                    }
                 }
-                KOp::Le { t, p } => {
-                    c.first_less_or_equal(*t, DEFAULT, inst::probe(*p, inst::NOEXP));
-                    self.now = *t;
-                }
-                KOp::By { t, th } => {
-                    c.first_less_or_equal_by(*t, DEFAULT, inst::by_theta(*th));
-                    self.now = *t;
-                }
-                KOp::Get { t, k } => {
-                    c.get_value(*t, inst::probe(*k, inst::NOEXP));
-                    self.now = *t;
-                }
-                KOp::Empty => {
-                    c.is_empty();
-                }
-                KOp::Clear => {
-                    c.clear();
-                    self.mine.clear();
-                    self.now = 0;
-                }
-                KOp::Export { .. } => panic!("export inside a path"),
+                return;
             }
         }
-        let snap = c.snap_json();
-        self.c = Some(c);
+        let snap = self.c.as_ref().unwrap().snap_json();
         let ptxt: Vec<String> = path.iter().map(|o| o.to_path()).collect();
         self.tr.line(&format!("\"ev\":\"load\",\"coll\":\"{}\",\"cap\":{},\"now\":{},\"path\":\"{}\",{}", C::NAME, cap, self.now, ptxt.join(";"), snap));
     }
@@ -378,6 +412,7 @@ impl<'a, C: KeyColl> KeySession<'a, C> {
             }
         }
         self.last_unwound = unwound;
+        self.last_panicked = fields.contains("\"out\":\"panic\"");
         let st = if alive { self.state_fields(unwound) } else { String::new() };
         let sep = if st.is_empty() { "" } else { "," };
         self.tr.line(&format!(
